@@ -19,11 +19,13 @@ SUFFIXES = ["", " each month", " per month"]
 def gen_cases(tier, seed):
     cases = []
     n = 16 if tier == "quick" else 64
-    for k in range(n):
-        cases.append({"kind": "units", "gen_seed": seed * 7 + k, "shard": k, "nshards": n, "tier": tier, "id": "units#%d" % k})
+    reps = 1 if tier == "quick" else 8  # thorough: the exhaustive product under 8 different draws of the process settings
+    for rep in range(reps):
+        for k in range(n):
+            cases.append({"kind": "units", "gen_seed": seed * 7 + k + 100003 * rep, "shard": k, "nshards": n, "tier": tier, "id": "units#%d.%d" % (rep, k)})
     # histories: the process-wide requirements are re-set several times in one process (as a multi-country batch does),
     # one component at a time, with conversions in between
-    nh = 8 if tier == "quick" else 48
+    nh = 8 if tier == "quick" else 256
     for k in range(nh):
         cases.append({"kind": "resettings", "gen_seed": seed * 11 + 1000 + k, "steps": 8 if tier == "quick" else 20, "tier": tier, "id": "resettings#%d" % k})
     return cases
